@@ -9,6 +9,7 @@
 From Coq Require Import ZArith List Bool Arith.
 Import ListNotations.
 From FV.C09 Require Import Table AttrModel.
+From FV.C09.gen Require Export FirstOrder.
 
 (* how a nodal variable is carried over by the three operations that select
    nodes by storage position: by id (true) or by the position in the node
@@ -175,16 +176,10 @@ Definition remove_useless_nodes (c : cfg) (m : mesh) : option mesh :=
     end.
 
 (* ---- to_first_order ---- *)
-(* second-order types and the number of corner nodes kept (tet2 -> 4, hex2 -> 8) *)
-Definition first_order_arity (t : nat) : option (option nat) :=
-  (* Some None: first-order type, unchanged; Some (Some k): keep k; None: unsupported *)
-  match t with
-  | 9 => Some (Some 4)   (* tet2 *)
-  | 15 => Some (Some 8)  (* hex2 *)
-  | 1 | 4 | 6 | 11 | 13 => None   (* line2 tri2 quad2 pyr2 prism2: raises *)
-  | _ => Some None
-  end%nat.
-
+(* second-order types and the number of corner nodes kept (tet2 -> 4, hex2 -> 8):
+   `first_order_arity`, regenerated on every run from FEMElementalAttribute._to_first_order by
+   translate/c09_cfg.py (gen/FirstOrder.v).  Some None: returned unchanged; Some (Some k): the
+   first k columns are kept; None: the type is not supported (raises). *)
 Definition is_second (t : nat) : bool :=
   match first_order_arity t with Some None => false | _ => true end.
 
